@@ -306,8 +306,8 @@ func c25Aged() []*hist.Case {
 			{Kind: "publish", Client: 1, Topic: "h/a", QoS: v.retQoS, Retain: true},
 			{Kind: "connect", Client: 0, Version: 5, Clean: false, Expiry: &exp, RecvMax: &one},
 			{Kind: "subscribe", Client: 0, Filters: []refmqtt.Filter{{Filter: "d/#", QoS: 1}}},
-			{Kind: "publish", Client: 1, Topic: "d/a", QoS: 1},
 			{Kind: "sleep", Offset: 6000},
+			{Kind: "publish", Client: 1, Topic: "d/a", QoS: 1}, // fresh: it fills the window and outlives the tick below
 			{Kind: "subscribe", Client: 0, Filters: []refmqtt.Filter{{Filter: "h/#", QoS: 1}}},
 			{Kind: "tick", Tick: "inflight", Offset: v.off},
 			{Kind: "ack", Client: 0, Index: 0},
